@@ -33,3 +33,8 @@ func (de *DepthExecutor) VerifExecuteRequests(ers []*ExecutionRequest) ([]map[st
 func VerifMergeMaps(left, right map[string]interface{}) map[string]interface{} {
 	return mergeMaps(left, right)
 }
+
+// VerifNewPointDataExtractor returns a usable CachedPointDataExtractor (its cache map is unexported).
+func VerifNewPointDataExtractor() *CachedPointDataExtractor {
+	return &CachedPointDataExtractor{cache: make(map[string]*PointData)}
+}
